@@ -1398,6 +1398,11 @@ func (c *Conn) executeQuery(ctx context.Context, qry *Query) *Iter {
 			if err := marshalQueryValue(typ, value, v); err != nil {
 				return &Iter{err: err}
 			}
+			if v.isUnset && c.version < protoVersion4 {
+				// before protocol 4 a negative [bytes] length means null, so the
+				// server would overwrite the column instead of leaving it alone
+				return &Iter{err: fmt.Errorf("gocql: UnsetValue requires protocol version 4 or higher, connection uses version %d", c.version)}
+			}
 		}
 
 		params.skipMeta = !(c.session.cfg.DisableSkipMetadata || qry.disableSkipMetadata)
@@ -1609,6 +1614,9 @@ func (c *Conn) executeBatch(ctx context.Context, batch *Batch) *Iter {
 				typ := info.request.columns[j].TypeInfo
 				if err := marshalQueryValue(typ, value, v); err != nil {
 					return &Iter{err: err}
+				}
+				if v.isUnset && c.version < protoVersion4 {
+					return &Iter{err: fmt.Errorf("gocql: batch statement %d: UnsetValue requires protocol version 4 or higher, connection uses version %d", i, c.version)}
 				}
 			}
 		} else {
